@@ -201,6 +201,22 @@ func (e *effectCtx) classifyMap(v ssa.Value, depth int) effectVerdict {
 				if fa, ok := x.X.(*ssa.FieldAddr); ok {
 					if r := e.classifyObject(fa.X, depth); !r.OK {
 						bad = "map held in field " + ownerOfFieldAddr(fa) + "." + fieldOfAddr(fa).Name() + " of " + r.Why
+					} else if depth < 2 {
+						// the field belongs to a per-request object, but what was put into the field may be shared: a map
+						// taken over from a Route / WebService / Container instead of being copied
+						for _, st := range p.storesToField(fieldOfAddr(fa)) {
+							for _, src := range p.sources(st.Val, provOpt{ThroughCells: true}) {
+								u, ok := strip(src).(*ssa.UnOp)
+								if !ok || u.Op != token.MUL {
+									continue
+								}
+								if fa2, ok := u.X.(*ssa.FieldAddr); ok && fieldOfAddr(fa2) != fieldOfAddr(fa) {
+									if r2 := e.classifyObject(fa2.X, depth+1); !r2.OK {
+										bad = "map that " + p.fname(st.Parent()) + " took over from field " + ownerOfFieldAddr(fa2) + "." + fieldOfAddr(fa2).Name() + " of " + r2.Why + " (assigned, not copied, at " + p.ipos(st) + ")"
+									}
+								}
+							}
+						}
 					}
 					continue
 				}
